@@ -17,6 +17,7 @@ import SaModel.Lemmas.C04SafeDT
 import SaModel.Lemmas.C04Physical
 import SaModel.Lemmas.C04PhysSize
 import SaModel.Props.C03Read
+import SaModel.Lemmas.C04ExtSchema
 /-
 C04 — round trip through a type-traced schema is the identity.
 
@@ -26,7 +27,11 @@ The end-to-end statement composes four facts about the REAL model functions (no 
              succeeds on every walkable, mappable type within the pass budget: `C04_fromType_ok`
   (H1, C01)  the builder refines the documented mapping:  `Props.C01.C01_build_decode'` + `Props.C01.C03_wfS'` (the hidden-rows
              refinement, Props/C01Obs.lean: NO `Safe` hypothesis), their schema side conditions (`SchemaOKF`, `coveredF`)
-             proved for every traced schema (`mapping_side`)
+             proved for every traced schema (`mapping_side`); the hypothesis `ExtOK` of `C03_wfS'` (the external chrono
+             parsers return values in range) is discharged for EVERY `ext`: a traced schema has no temporal column
+             (`mapping_noTemporal`), so the parsers are never consulted and `to_marrow` is the same function under
+             `refuseExt ext`, whose parsers refuse everything (`toMarrow_refuse_traced`, `refuseExt_ok`;
+             SaModel/Lemmas/C04Ext*.lean)
   (H2, C02)  the reader returns the cast of the decoded content: `Props.C02.read_typed_decode` with `cast_lvO`,
              `newFields_of_wf`, `utf8Ok_lvO`
   (Hinv)     **the Rust → Arrow mapping is injective up to the documented normalisation**:
@@ -172,17 +177,17 @@ theorem C04_safe_traced_iff (o : TraceOpts) (fs : TFields) (fields : List Field)
   rwa [hfields, Fields.ofList_toList] at this
 
 /-- the core of the round trip: `from_marrow`'s checks pass with record count `vs.length`, the root reader is
-constructed, and the typed read of every index returns the normalised value (`C04_roundtrip_partial`,
-`C04_roundtrip_bulk_partial` are its two front ends) -/
-theorem C04_roundtrip_core (c : Trace.Code) (O : Trace.Options) (ext : Ext) (n : String) (fs : TFields) (vs : List Val)
+constructed, and the typed read of every index returns the normalised value (`C04_roundtrip`,
+`C04_roundtrip_bulk` are its two front ends).  No hypothesis about `ext`: the schema has no temporal column, so the run is
+replayed under `refuseExt ext` (`toMarrow_refuse_traced`), for which `ExtOK` holds (`refuseExt_ok`). -/
+theorem C04_roundtrip_core_fields (O : Trace.Options) (ext : Ext) (n : String) (fs : TFields) (vs : List Val)
     (fields : List Field) (arrs : List Arr)
-    (h0 : O.overwrites = []) (hfrag : fragE (.struct n fs) = true) (hne : fs ≠ .nil)
+    (hfrag : fragE (.struct n fs) = true) (hne : fs ≠ .nil)
     (hwt : ∀ v ∈ vs, wt (.struct n fs) v = true)
     (hsc : ∀ v ∈ vs, inScopeO (viewOpts O) (.struct n fs) v = true)
-    (hext : Lemmas.C03.ExtOK ext)
     (hphys : Spec.wfFields (mappingFields (viewOpts O) fs) (zipCols fields arrs) vs.length = true →
       Read.physicalFields (zipCols fields arrs) = true)
-    (hft : Trace.fromType c O (toTraceTy (.struct n fs)) = .ok fields)
+    (hfields : fields = (mappingFields (viewOpts O) fs).toList)
     (htm : toMarrow ext fields (vs.map (ser (.struct n fs))) = .ok arrs) :
     Access.new true fields.length (arrs.map Read.vlen) = .ok vs.length ∧
     Read.new Read.Fixes.all (rootArr fields arrs vs.length) = .ok () ∧
@@ -191,9 +196,12 @@ theorem C04_roundtrip_core (c : Trace.Code) (O : Trace.Options) (ext : Ext) (n :
         .ok (dvalOf (.struct n fs) (norm (.struct n fs) vs[i])) := by
   let t : Ty := .struct n fs
   let o := viewOpts O
-  have hroot : mappingRoot o t = some fields := C04_fromType_mapping c O h0 t fields hft
-  have hfields : fields = (mappingFields o fs).toList := C04_fromType_fields c O h0 n fs fields hft
+  have hroot : mappingRoot o t = some fields := by simp [mappingRoot, mappingDT, hfields, t, o]
   have hofl : Fields.ofList fields = mappingFields o fs := by rw [hfields]; exact Fields.ofList_toList _
+  -- no temporal column in a traced schema: the chrono parsers of `ext` are never consulted — replace them by refusing ones
+  have htm' : toMarrow (refuseExt ext) fields (vs.map (ser t)) = .ok arrs := by
+    rw [← toMarrow_refuse_traced ext o fs fields hfields]; exact htm
+  have hext : Lemmas.C03.ExtOK (refuseExt ext) := refuseExt_ok ext
   -- side conditions of C01 / C03
   have hside := sideFs_toList (mappingFields o fs) (mappingFields_side o fs)
   rw [← hfields] at hside
@@ -201,12 +209,12 @@ theorem C04_roundtrip_core (c : Trace.Code) (O : Trace.Options) (ext : Ext) (n :
     intro x hx
     obtain ⟨v, hv, rfl⟩ := List.mem_map.mp hx
     exact ser_ok t v (hwt v hv)
-  obtain ⟨hlen, cols, hc1, hc2, hc3, hc4⟩ := Props.C01.C01_build_decode' ext fields (vs.map (ser t)) arrs
+  obtain ⟨hlen, cols, hc1, hc2, hc3, hc4⟩ := Props.C01.C01_build_decode' (refuseExt ext) fields (vs.map (ser t)) arrs
     (fun f hf => (hside f hf).1)
     (List.all_eq_true.mpr fun f hf => (hside f hf).2) (fun x hx => Build.noRaw_ssa x (hser x hx).1)
-    (Or.inl fun x hx => (hser x hx).1) htm
-  obtain ⟨_, hwf⟩ := Props.C01.C03_wfS' ext fields (vs.map (ser t)) arrs
-    (fun f hf => (hside f hf).1) (Or.inr (List.all_eq_true.mpr fun f hf => (hside f hf).2)) hext (fun x hx => (hser x hx).2) htm
+    (Or.inl fun x hx => (hser x hx).1) htm'
+  obtain ⟨_, hwf⟩ := Props.C01.C03_wfS' (refuseExt ext) fields (vs.map (ser t)) arrs
+    (fun f hf => (hside f hf).1) (Or.inr (List.all_eq_true.mpr fun f hf => (hside f hf).2)) hext (fun x hx => (hser x hx).2) htm'
   have hrl : (vs.map (ser t)).length = vs.length := List.length_map _
   -- the root reader
   have hcols : Spec.wfFields (mappingFields o fs) (zipCols fields arrs) vs.length = true := by
@@ -241,7 +249,7 @@ theorem C04_roundtrip_core (c : Trace.Code) (O : Trace.Options) (ext : Ext) (n :
   intro i hi
   have hsi := hsc _ (List.getElem_mem hi)
   -- the decoded record is the logical value of the input
-  have hinterp := C04_interpRow ext o n fs vs[i] fields hfrag (hwt _ (List.getElem_mem hi)) hsi hroot
+  have hinterp := C04_interpRow (refuseExt ext) o n fs vs[i] fields hfrag (hwt _ (List.getElem_mem hi)) hsi hroot
   have hrow := hc4 i (by rw [hrl]; exact hi)
   rw [List.getElem_map, hinterp] at hrow
   have hdec : Spec.decodeAt (rootArr fields arrs vs.length) i = .ok (lvO o t vs[i]) := by
@@ -258,6 +266,40 @@ theorem C04_roundtrip_core (c : Trace.Code) (O : Trace.Options) (ext : Ext) (n :
     (by simpa [rootArr, Read.new] using hnewF)
     (by simpa [rootArr, Read.physical] using hphys hcols)
     (utf8Ok_lvO o t vs[i]) hcast
+
+/-- the core against what `from_type` returned (`C04_roundtrip_core_fields` with `C04_fromType_fields`) -/
+theorem C04_roundtrip_core (c : Trace.Code) (O : Trace.Options) (ext : Ext) (n : String) (fs : TFields) (vs : List Val)
+    (fields : List Field) (arrs : List Arr)
+    (h0 : O.overwrites = []) (hfrag : fragE (.struct n fs) = true) (hne : fs ≠ .nil)
+    (hwt : ∀ v ∈ vs, wt (.struct n fs) v = true)
+    (hsc : ∀ v ∈ vs, inScopeO (viewOpts O) (.struct n fs) v = true)
+    (hphys : Spec.wfFields (mappingFields (viewOpts O) fs) (zipCols fields arrs) vs.length = true →
+      Read.physicalFields (zipCols fields arrs) = true)
+    (hft : Trace.fromType c O (toTraceTy (.struct n fs)) = .ok fields)
+    (htm : toMarrow ext fields (vs.map (ser (.struct n fs))) = .ok arrs) :
+    Access.new true fields.length (arrs.map Read.vlen) = .ok vs.length ∧
+    Read.new Read.Fixes.all (rootArr fields arrs vs.length) = .ok () ∧
+    ∀ (i : Nat) (hi : i < vs.length),
+      Read.readAs Read.Fixes.all (toTarget (.struct n fs)) (rootArr fields arrs vs.length) i =
+        .ok (dvalOf (.struct n fs) (norm (.struct n fs) vs[i])) :=
+  C04_roundtrip_core_fields O ext n fs vs fields arrs hfrag hne hwt hsc hphys (C04_fromType_fields c O h0 n fs fields hft) htm
+
+/-- `C04_physical` against the documented mapping itself (no hypothesis about `from_type`) -/
+theorem C04_physical_fields (O : Trace.Options) (ext : Ext) (n : String) (fs : TFields) (vs : List Val)
+    (fields : List Field) (arrs : List Arr)
+    (hwt : ∀ v ∈ vs, wt (.struct n fs) v = true)
+    (hlen : vs.length ≤ 9223372036854775807)
+    (hfields : fields = (mappingFields (viewOpts O) fs).toList)
+    (htm : toMarrow ext fields (vs.map (ser (.struct n fs))) = .ok arrs) : ∀ a ∈ arrs, Read.physical a = true := by
+  have hside := sideFs_toList (mappingFields (viewOpts O) fs) (mappingFields_side (viewOpts O) fs)
+  rw [← hfields] at hside
+  refine Props.C03.toMarrow_physical ext fields (vs.map (ser (.struct n fs))) arrs
+    (List.all_eq_true.mpr fun f hf => (hside f hf).2) ?_ ?_ htm
+  · intro x hx
+    obtain ⟨v, hv, rfl⟩ := List.mem_map.mp hx
+    exact (ser_ok _ v (hwt v hv)).1
+  · rw [List.length_map, hfields]
+    exact mapped_sizeOK (viewOpts O) fs vs.length hlen
 
 /-- **`Read.physical` of the arrays built against a type-traced schema** — the size precondition of the reader, EVERY option
 (dictionary-encoded strings and string-stored enums included): at most `i64::MAX` records.  `Props.C03.toMarrow_physical` (the
@@ -307,22 +349,21 @@ below an `Option<struct>` — where C01's per-builder append-only statement is f
 
 `Read.physical` (the value count of every Dictionary column fits `i64`) is no longer a hypothesis: it is derived from the
 input-side bound `hlen` (at most `i64::MAX` records; `C04_physical`).
-`_partial`, remaining hypothesis — exactly ONE:
-  `hext`   the external chrono parsers return values in range (`ExtOK`; no temporal column occurs in a traced schema, but
-           `Props.C01.C03_wfS'` asks for it unconditionally; a theorem for the codec models: `C04_end_to_end_codec`). -/
-theorem C04_roundtrip_partial (c : Trace.Code) (O : Trace.Options) (ext : Ext) (n : String) (fs : TFields) (vs : List Val)
+NO hypothesis about `ext` (the former `hext : ExtOK ext`, "the external chrono parsers return values in range", which kept
+the suffix `_partial`): no temporal column occurs in a traced schema (`mapping_noTemporal`), the parsers are never consulted
+(`toMarrow_refuse_traced`), and `Props.C01.C03_wfS'` is applied to `refuseExt ext`, whose parsers refuse (`refuseExt_ok`). -/
+theorem C04_roundtrip (c : Trace.Code) (O : Trace.Options) (ext : Ext) (n : String) (fs : TFields) (vs : List Val)
     (fields : List Field) (arrs : List Arr)
     (h0 : O.overwrites = []) (hfrag : fragE (.struct n fs) = true) (hne : fs ≠ .nil)
     (hwt : ∀ v ∈ vs, wt (.struct n fs) v = true)
     (hsc : ∀ v ∈ vs, inScopeO (viewOpts O) (.struct n fs) v = true)
-    (hext : Lemmas.C03.ExtOK ext)
     (hlen : vs.length ≤ 9223372036854775807)
     (hft : Trace.fromType c O (toTraceTy (.struct n fs)) = .ok fields)
     (htm : toMarrow ext fields (vs.map (ser (.struct n fs))) = .ok arrs) :
     ∀ (i : Nat) (hi : i < vs.length),
       readRecord (toTarget (.struct n fs)) fields arrs i = .ok (dvalOf (.struct n fs) (norm (.struct n fs) vs[i])) := by
   intro i hi
-  obtain ⟨hacc, hnew, hread⟩ := C04_roundtrip_core c O ext n fs vs fields arrs h0 hfrag hne hwt hsc hext
+  obtain ⟨hacc, hnew, hread⟩ := C04_roundtrip_core c O ext n fs vs fields arrs h0 hfrag hne hwt hsc
     (fun _ => zip_physical fields arrs (C04_physical c O ext n fs vs fields arrs h0 hwt hlen hft htm)) hft htm
   simp only [readRecord, hacc, bind, Except.bind]
   rw [hnew]
@@ -335,20 +376,19 @@ theorem mapM_ok_of_forall {α β} (f : α → R β) (g : α → β) : ∀ (l : L
     rw [List.mapM_cons, h x (by simp), mapM_ok_of_forall f g xs (fun y hy => h y (by simp [hy]))]
     rfl
 
-/-- **Bulk form**: under the hypotheses of `C04_roundtrip_partial`, reading ALL records at once
+/-- **Bulk form**: under the hypotheses of `C04_roundtrip`, reading ALL records at once
 (`Vec<T>::deserialize(Deserializer::from_marrow(fields, views))`: the indices `Access.bulk len` of C13, each read into the
 type's target) returns the whole batch, normalised, in order. -/
-theorem C04_roundtrip_bulk_partial (c : Trace.Code) (O : Trace.Options) (ext : Ext) (n : String) (fs : TFields) (vs : List Val)
+theorem C04_roundtrip_bulk (c : Trace.Code) (O : Trace.Options) (ext : Ext) (n : String) (fs : TFields) (vs : List Val)
     (fields : List Field) (arrs : List Arr)
     (h0 : O.overwrites = []) (hfrag : fragE (.struct n fs) = true) (hne : fs ≠ .nil)
     (hwt : ∀ v ∈ vs, wt (.struct n fs) v = true)
     (hsc : ∀ v ∈ vs, inScopeO (viewOpts O) (.struct n fs) v = true)
-    (hext : Lemmas.C03.ExtOK ext)
     (hlen : vs.length ≤ 9223372036854775807)
     (hft : Trace.fromType c O (toTraceTy (.struct n fs)) = .ok fields)
     (htm : toMarrow ext fields (vs.map (ser (.struct n fs))) = .ok arrs) :
     readAll (toTarget (.struct n fs)) fields arrs = .ok (vs.map fun v => dvalOf (.struct n fs) (norm (.struct n fs) v)) := by
-  obtain ⟨hacc, hnew, hread⟩ := C04_roundtrip_core c O ext n fs vs fields arrs h0 hfrag hne hwt hsc hext
+  obtain ⟨hacc, hnew, hread⟩ := C04_roundtrip_core c O ext n fs vs fields arrs h0 hfrag hne hwt hsc
     (fun _ => zip_physical fields arrs (C04_physical c O ext n fs vs fields arrs h0 hwt hlen hft htm)) hft htm
   simp only [readAll, hacc, bind, Except.bind]
   rw [hnew]
@@ -367,17 +407,16 @@ theorem C04_roundtrip_bulk_partial (c : Trace.Code) (O : Trace.Options) (ext : E
 
 /-- **The round trip is literally the identity** where no `Option` sits directly over a nullable position
 (`plainOpt`: no `Option<Option<_>>`, `Option<()>`, …): `norm_eq_self` (whole grammar) removes the normalisation. -/
-theorem C04_roundtrip_identity_partial (c : Trace.Code) (O : Trace.Options) (ext : Ext) (n : String) (fs : TFields) (vs : List Val)
+theorem C04_roundtrip_identity (c : Trace.Code) (O : Trace.Options) (ext : Ext) (n : String) (fs : TFields) (vs : List Val)
     (fields : List Field) (arrs : List Arr)
     (h0 : O.overwrites = []) (hfrag : fragE (.struct n fs) = true) (hplain : plainOpt (.struct n fs) = true) (hne : fs ≠ .nil)
     (hwt : ∀ v ∈ vs, wt (.struct n fs) v = true)
     (hsc : ∀ v ∈ vs, inScopeO (viewOpts O) (.struct n fs) v = true)
-    (hext : Lemmas.C03.ExtOK ext)
     (hlen : vs.length ≤ 9223372036854775807)
     (hft : Trace.fromType c O (toTraceTy (.struct n fs)) = .ok fields)
     (htm : toMarrow ext fields (vs.map (ser (.struct n fs))) = .ok arrs) :
     readAll (toTarget (.struct n fs)) fields arrs = .ok (vs.map (dvalOf (.struct n fs))) := by
-  rw [C04_roundtrip_bulk_partial c O ext n fs vs fields arrs h0 hfrag hne hwt hsc hext hlen hft htm]
+  rw [C04_roundtrip_bulk c O ext n fs vs fields arrs h0 hfrag hne hwt hsc hlen hft htm]
   congr 1
   apply List.map_congr_left
   intro v hv
@@ -390,19 +429,18 @@ theorem C04_norm_eq_self (t : Ty) (v : Val) (hp : plainOpt t = true) (hw : wt t 
 
 /-- the bulk round trip for traced schemas WITHOUT Dictionary columns (`string_dictionary_encoding` and
 `enums_without_data_as_strings` off): `Read.physical` is derived (`physical_traced`: every
-well-formed array of a dictionary-free traced schema is physical); the only hypothesis left besides the documented ones is
-`hext` (discharged at the codec models in `C04_end_to_end_plain`) -/
-theorem C04_roundtrip_bulk_plain_partial (c : Trace.Code) (O : Trace.Options) (ext : Ext) (n : String) (fs : TFields) (vs : List Val)
+well-formed array of a dictionary-free traced schema is physical), no size bound on the batch; no hypothesis is left besides
+the documented ones (any `ext`: the chrono parsers are never consulted, see `C04_roundtrip`) -/
+theorem C04_roundtrip_bulk_plain (c : Trace.Code) (O : Trace.Options) (ext : Ext) (n : String) (fs : TFields) (vs : List Val)
     (fields : List Field) (arrs : List Arr)
     (h0 : O.overwrites = []) (hd : O.string_dictionary_encoding = false) (he : O.enums_without_data_as_strings = false)
     (hfrag : fragE (.struct n fs) = true) (hne : fs ≠ .nil)
     (hwt : ∀ v ∈ vs, wt (.struct n fs) v = true)
     (hsc : ∀ v ∈ vs, inScopeO (viewOpts O) (.struct n fs) v = true)
-    (hext : Lemmas.C03.ExtOK ext)
     (hft : Trace.fromType c O (toTraceTy (.struct n fs)) = .ok fields)
     (htm : toMarrow ext fields (vs.map (ser (.struct n fs))) = .ok arrs) :
     readAll (toTarget (.struct n fs)) fields arrs = .ok (vs.map fun v => dvalOf (.struct n fs) (norm (.struct n fs) v)) := by
-  obtain ⟨hacc, hnew, hread⟩ := C04_roundtrip_core c O ext n fs vs fields arrs h0 hfrag hne hwt hsc hext
+  obtain ⟨hacc, hnew, hread⟩ := C04_roundtrip_core c O ext n fs vs fields arrs h0 hfrag hne hwt hsc
     (physical_traced (viewOpts O) hd he fs _ _) hft htm
   simp only [readAll, hacc, bind, Except.bind]
   rw [hnew]
@@ -453,7 +491,7 @@ def exFragVal : Val :=
 example : frag exFragRoot = true ∧ wt exFragRoot exFragVal = true := by decide +kernel
 example : frag exRoot = false := by decide +kernel
 
-/-! non-vacuity of `C04_roundtrip_partial`: `exFragRoot` (nested Option, Vec of Option of struct, map, skipped field,
+/-! non-vacuity of `C04_roundtrip`: `exFragRoot` (nested Option, Vec of Option of struct, map, skipped field,
 newtype over bytes) traced under `map_as_struct = false`, a batch of two values; every hypothesis is met (computed),
 serialization succeeds, and the theorem gives the read results -/
 def exO : Trace.Options := { map_as_struct := false, sequence_as_large_list := false }
@@ -463,13 +501,6 @@ def exBatch : List Val := [exFragVal, exFragVal2]
 def exFields : List Field := match Trace.fromType .fixed exO (toTraceTy exFragRoot) with | .ok fs => fs | .error _ => []
 def exArrs : List Arr := match toMarrow {} exFields (exBatch.map (ser exFragRoot)) with | .ok a => a | .error _ => []
 
-theorem exExtOK : Lemmas.C03.ExtOK {} where
-  date32 := by intro s v h; cases h
-  date64 := by intro s v h; cases h
-  time := by intro u s v h; cases h
-  timestamp := by intro u utc s v h; cases h
-  duration := by intro u s v h; cases h
-
 theorem exTrace : Trace.fromType .fixed exO (toTraceTy exFragRoot) = .ok exFields := by decide +kernel
 theorem exBuild : toMarrow {} exFields (exBatch.map (ser exFragRoot)) = .ok exArrs := by decide +kernel
 
@@ -478,8 +509,8 @@ example : exFields.length = 4 ∧ exArrs.length = 4 ∧ (∀ v ∈ exBatch, wt e
 
 example : ∀ (i : Nat) (hi : i < exBatch.length),
     readRecord (toTarget exFragRoot) exFields exArrs i = .ok (dvalOf exFragRoot (norm exFragRoot exBatch[i])) := by
-  exact C04_roundtrip_partial .fixed exO {} "Root" _ exBatch exFields exArrs rfl (by decide +kernel) (by simp)
-    (by decide +kernel) (by decide +kernel) exExtOK (by decide +kernel) exTrace exBuild
+  exact C04_roundtrip .fixed exO {} "Root" _ exBatch exFields exArrs rfl (by decide +kernel) (by simp)
+    (by decide +kernel) (by decide +kernel) (by decide +kernel) exTrace exBuild
 
 /-- what comes back for the first record: `a: Some(None)` has collapsed to `None` (the documented normalisation), the
 rest is the input -/
@@ -496,10 +527,10 @@ def tfieldsOf : Ty → TFields
 
 /-- non-vacuity of the bulk form: the whole batch comes back, normalised, in order -/
 example : readAll (toTarget exFragRoot) exFields exArrs = .ok (exBatch.map fun v => dvalOf exFragRoot (norm exFragRoot v)) :=
-  C04_roundtrip_bulk_partial .fixed exO {} "Root" _ exBatch exFields exArrs rfl (by decide +kernel) (by simp)
-    (by decide +kernel) (by decide +kernel) exExtOK (by decide +kernel) exTrace exBuild
+  C04_roundtrip_bulk .fixed exO {} "Root" _ exBatch exFields exArrs rfl (by decide +kernel) (by simp)
+    (by decide +kernel) (by decide +kernel) (by decide +kernel) exTrace exBuild
 
-/-! non-vacuity of `C04_roundtrip_identity_partial` / `C04_norm_eq_self`: a record type without `Option` over a nullable
+/-! non-vacuity of `C04_roundtrip_identity` / `C04_norm_eq_self`: a record type without `Option` over a nullable
 position (an Option of a scalar, a tuple, a Vec of Option of struct): the batch comes back as it is -/
 def exPlainRoot : Ty :=
   .struct "P" (.cons "a" false (.option (.prim (.int .i32)))
@@ -515,8 +546,8 @@ theorem exPlainTrace : Trace.fromType .fixed exO (toTraceTy exPlainRoot) = .ok e
 theorem exPlainBuild : toMarrow {} exPlainFields (exPlainBatch.map (ser exPlainRoot)) = .ok exPlainArrs := by decide +kernel
 example : plainOpt exPlainRoot = true ∧ plainOpt exFragRoot = false ∧ exPlainFields.length = 3 := by decide +kernel
 example : readAll (toTarget exPlainRoot) exPlainFields exPlainArrs = .ok (exPlainBatch.map (dvalOf exPlainRoot)) :=
-  C04_roundtrip_identity_partial .fixed exO {} "P" _ exPlainBatch exPlainFields exPlainArrs rfl (by decide +kernel)
-    (by decide +kernel) (by simp) (by decide +kernel) (by decide +kernel) exExtOK (by decide +kernel)
+  C04_roundtrip_identity .fixed exO {} "P" _ exPlainBatch exPlainFields exPlainArrs rfl (by decide +kernel)
+    (by decide +kernel) (by simp) (by decide +kernel) (by decide +kernel) (by decide +kernel)
     exPlainTrace exPlainBuild
 
 example : wt exRoot exVal1 = true ∧ wt exRoot exVal2 = true := by decide +kernel
@@ -555,8 +586,8 @@ example : exEFields.length = 5 ∧ exEArrs.length = 5 := by decide +kernel
 
 example : ∀ (i : Nat) (hi : i < exEBatch.length),
     readRecord (toTarget exRoot) exEFields exEArrs i = .ok (dvalOf exRoot (norm exRoot exEBatch[i])) :=
-  C04_roundtrip_partial .fixed exEO {} "Root" _ exEBatch exEFields exEArrs rfl (by decide +kernel) (by simp)
-    (by decide +kernel) (by decide +kernel) exExtOK (by decide +kernel) exETrace exEBuild
+  C04_roundtrip .fixed exEO {} "Root" _ exEBatch exEFields exEArrs rfl (by decide +kernel) (by simp)
+    (by decide +kernel) (by decide +kernel) (by decide +kernel) exETrace exEBuild
 
 /-! a data-less enum stored as STRINGS (`enums_without_data_as_strings`): `Option<Color>` = `None` is IN scope there (the
 column is a nullable Dictionary, not a Union), and the values come back -/
@@ -579,7 +610,7 @@ example : lvO (viewOpts exSO) exColor (.variant 1 .nil) = .str "Green".toUTF8.to
 
 example : ∀ (i : Nat) (hi : i < exSBatch.length),
     readRecord (toTarget exSRoot) exSFields exSArrs i = .ok (dvalOf exSRoot (norm exSRoot exSBatch[i])) :=
-  C04_roundtrip_partial .fixed exSO {} "S" _ exSBatch exSFields exSArrs rfl (by decide +kernel) (by simp)
-    (by decide +kernel) (by decide +kernel) exExtOK (by decide +kernel) exSTrace exSBuild
+  C04_roundtrip .fixed exSO {} "S" _ exSBatch exSFields exSArrs rfl (by decide +kernel) (by simp)
+    (by decide +kernel) (by decide +kernel) (by decide +kernel) exSTrace exSBuild
 
 end SaModel.Props.C04
